@@ -158,6 +158,35 @@ theorem askErr_of_plain {α : Type} (c : Comp α) (hp : c.PlainAsks) (e : Err) :
     · subst hg; exact h
     · exact ih b (hk b) h
 
+/-- the modes in which a computation fails at one of its questions form an upward closed set: if
+    it does under `m'` it does under every stricter `m` -/
+theorem failsAtAsk_mono {α : Type} (c : Comp α) (m m' : Mode) (h : m' ≤ m) :
+    c.failsAtAsk m' = true → c.failsAtAsk m = true := by
+  induction c with
+  | pure x => exact fun hx => hx
+  | fail e => exact fun hx => hx
+  | ask q g k ih =>
+    intro hx
+    simp only [Comp.failsAtAsk] at hx ⊢
+    cases hq : q.run m with
+    | error e => rfl
+    | ok b =>
+      rw [HQ.run_mono q m m' b h hq] at hx
+      simpa using ih b hx
+
+/-- failing at a question is failing -/
+theorem run_of_failsAtAsk {α : Type} (c : Comp α) (m : Mode) :
+    c.failsAtAsk m = true → ∃ e, c.run m = .error e := by
+  induction c with
+  | pure x => intro h; cases h
+  | fail e => intro h; cases h
+  | ask q g k ih =>
+    intro hx
+    simp only [Comp.failsAtAsk, Comp.run] at hx ⊢
+    cases hq : q.run m with
+    | error e => exact ⟨g e, rfl⟩
+    | ok b => simp only [hq] at hx; exact ih b hx
+
 /-- a computation that asks nothing does not depend on the mode -/
 theorem run_of_isPure {α : Type} (c : Comp α) (h : c.isPure = true) (m m' : Mode) : c.run m = c.run m' := by
   cases c with
